@@ -478,14 +478,14 @@ Fixpoint m16_pubs (k : caps) (i : nat) (b : obs) (conns : list sconn) (ws : list
 
 Definition minZ (a b : Z) : Z := if (a <? b)%Z then a else b.
 
-Definition m16_step (k : caps) (i : nat) (m : m16) (b : obs) : m16 * list viol :=
+Definition published_in (ws : list (N * msg)) (c : N) : bool := existsb (fun w => fst w =? c) ws.
+
+(* 1. the connection's own end: decide what has to happen to its will *)
+Definition m16_end (k : caps) (i : nat) (conns : list sconn) (b : obs) : list sconn * list viol :=
   let ws := wills_of (b_outs b) in
-  let published (c : N) := existsb (fun w => fst w =? c) ws in
-  (* 1. the connection's own end: decide what has to happen to its will *)
-  let (conns1, v_end) :=
     match ends_conn (b_op b) with
     | Some (c, t, normal0) =>
-        match find_x c (d_conns m) with
+        match find_x c conns with
         | Some x =>
             if x_open x then
               let sei := match b_op b with ODisconnect _ _ _ s => if x_ver x =? 5 then s else None | _ => None end in
@@ -493,52 +493,55 @@ Definition m16_step (k : caps) (i : nat) (m : m16) (b : obs) : m16 * list viol :
               let x1 := x_with x (if x_ver x =? 5 then req_after k x sei else x_req x) (x_open x) (Some t) (x_wst x) in
               match x_wst x with
               | WArmed =>
-                  if normal then (put_x (set_wst x1 WNormal) (d_conns m), [])
+                  if normal then (put_x (set_wst x1 WNormal) conns, [])
                   else
                     let d := minN (x_delay x) (eff k x1) in
                     if d =? 0 then
                       (* due now: it must be among this step's publications (checked by giving it the status WMust) *)
-                      (put_x (set_wst x1 WMust) (d_conns m),
-                       if published c then [] else [mkv V16_missing i c (x_id x)])
-                    else (put_x (set_wst x1 (WPending t (t + Z.of_N d)%Z)) (d_conns m), [])
-              | _ => (put_x x1 (d_conns m), [])
+                      (put_x (set_wst x1 WMust) conns,
+                       if published_in ws c then [] else [mkv V16_missing i c (x_id x)])
+                    else (put_x (set_wst x1 (WPending t (t + Z.of_N d)%Z)) conns, [])
+              | _ => (put_x x1 conns, [])
               end
-            else (d_conns m, [])
-        | None => (d_conns m, [])
+            else (conns, [])
+        | None => (conns, [])
         end
-    | None => (d_conns m, [])
-    end in
-  (* 2. a new connection is accepted: takeover of a live connection, cancellation / session end for pending wills *)
-  let (conns2, v_new) :=
+    | None => (conns, [])
+    end.
+
+(* 2. a new connection is accepted: takeover of a live connection, cancellation / session end for pending wills *)
+Definition m16_takeover (k : caps) (ws : list (N * msg)) (c : N) (p : cparams) (id : bytes) (x : sconn) : sconn :=
+  if beq_bytes (x_id x) id && negb (x_conn x =? c) then
+    match x_wst x with
+    | WArmed => if x_open x then
+                  (* taken over: the will is due (by the end of its teardown) unless it is delayed - by
+                     min(delay, session expiry) - and the session is resumed *)
+                  if negb (cp_clean p) && (0 <? minN (x_delay x) (eff k x)) then set_wst x WCancelled else set_wst x WMust
+                else x
+    | WPending _ _ => if cp_clean p then (if published_in ws (x_conn x) then x else set_wst x WFailed) else set_wst x WCancelled
+    | _ => x
+    end
+  else x.
+
+Definition m16_new (k : caps) (i : nat) (conns1 : list sconn) (b : obs) : list sconn * list viol :=
+  let ws := wills_of (b_outs b) in
     match b_op b with
     | OConnect c t p _ id =>
         match success_connack (pkts_to c (b_outs b)) with
         | Some _ =>
-            let step1 := map (fun x =>
-                if beq_bytes (x_id x) id && negb (x_conn x =? c) then
-                  match x_wst x with
-                  | WArmed => if x_open x then
-                                (* taken over: the will is due (by the end of its teardown) unless it is delayed - by
-                                   min(delay, session expiry) - and the session is resumed *)
-                                if negb (cp_clean p) && (0 <? minN (x_delay x) (eff k x)) then set_wst x WCancelled else set_wst x WMust
-                              else x
-                  | WPending _ _ => if cp_clean p then (if published (x_conn x) then x else set_wst x WFailed) else set_wst x WCancelled
-                  | _ => x
-                  end
-                else x) conns1 in
+            let step1 := map (m16_takeover k ws c p id) conns1 in
             let v := flat_map (fun x =>
-                if beq_bytes (x_id x) id && negb (x_conn x =? c) && cp_clean p && negb (published (x_conn x)) then
+                if beq_bytes (x_id x) id && negb (x_conn x =? c) && cp_clean p && negb (published_in ws (x_conn x)) then
                   match x_wst x with WPending _ _ => [mkv V16_lost_clean i (x_conn x) id] | _ => [] end
                 else []) conns1 in
             (put_x (x_new k c p id) step1, v)
         | None => (conns1, [])
         end
     | _ => (conns1, [])
-    end in
-  (* 3. publications *)
-  let (conns3, v_pub) := m16_pubs k i b conns2 ws in
-  (* 4. deadlines *)
-  let (conns4, v_dead) :=
+    end.
+
+(* 4. deadlines *)
+Definition m16_dead (i : nat) (conns3 : list sconn) (b : obs) : list sconn * list viol :=
     match b_op b with
     | OTeardown c _ =>
         match find_x c conns3 with
@@ -556,13 +559,24 @@ Definition m16_step (k : caps) (i : nat) (m : m16) (b : obs) : m16 * list viol :
     | _ =>
         (* a will that was due in this very step (status WMust set in 1) and was not published has been reported *)
         (map (fun x => match x_wst x, ends_conn (b_op b) with
-                       | WMust, Some (c, _, _) => if c =? x_conn x then set_wst x WFailed else x
+                       | WMust, Some (c, _, _) => if (c =? x_conn x) && x_open x then set_wst x WFailed else x
                        | _, _ => x end) conns3, [])
-    end in
-  (* connections closed by the broker *)
-  let conns5 := map (fun x => if x_open x && memN (x_conn x) (closes (b_outs b))
-                              then x_with x (x_req x) false (match x_end x with Some t => Some t | None => op_now (b_op b) end) (x_wst x)
-                              else x) conns4 in
+    end.
+
+(* connections closed by the broker *)
+Definition m16_mark (b : obs) (x : sconn) : sconn :=
+  if x_open x && memN (x_conn x) (closes (b_outs b))
+  then x_with x (x_req x) false (match x_end x with Some t => Some t | None => op_now (b_op b) end) (x_wst x)
+  else x.
+
+Definition m16_step (k : caps) (i : nat) (m : m16) (b : obs) : m16 * list viol :=
+  let ws := wills_of (b_outs b) in
+  let (conns1, v_end) := m16_end k i (d_conns m) b in
+  let (conns2, v_new) := m16_new k i conns1 b in
+  (* 3. publications *)
+  let (conns3, v_pub) := m16_pubs k i b conns2 ws in
+  let (conns4, v_dead) := m16_dead i conns3 b in
+  let conns5 := map (m16_mark b) conns4 in
   ({| d_conns := conns5 |}, v_end ++ v_new ++ v_pub ++ v_dead).
 
 (* ---------- running a monitor over a history ---------- *)
